@@ -455,6 +455,16 @@ class Program:
         return None
 
     # ------------------------------------------------------------------ anchors
+    def is_glue(self, fi: 'FuncInfo') -> bool:
+        """A function the rules do not know by name (not in known_names.txt) whose every resolved call was replaced by its body
+        by the normalising front end: its code is analysed inside its callers, never as a unit."""
+        nz = self.normalizer
+        return nz is not None and fi.qualname not in nz.known and fi.qualname in nz.inlined_names
+
+    def is_anchor(self, fi: 'FuncInfo') -> bool:
+        nz = self.normalizer
+        return nz is None or fi.qualname in nz.known
+
     def module(self, name: str) -> Module:
         m = self.modules.get(name)
         if m is None:
